@@ -1,5 +1,5 @@
 (* C06 — lemmas about the negotiation model (Client/Negotiate.v). *)
-From Coq Require Import NArith List Bool Lia.
+From Coq Require Import NArith PeanoNat List Bool Lia.
 From LLRP Require Import Client.Negotiate.
 Import ListNotations.
 Open Scope N_scope.
@@ -405,4 +405,417 @@ Proof.
     + apply Forall_app. split; [assumption|]. constructor; [|constructor].
       intros _. rewrite V. apply ack_negotiated.
   - intros t p H. apply (N t p). right. exact H.
+Qed.
+
+(* ---- the version of a frame is decided when it is written: acknowledgements held back -------- *)
+Lemma send_frame_carries : forall cfg v tp, conforming cfg = true -> carries v (send_frame cfg v tp).
+Proof.
+  intros cfg v [t p] C. unfold carries, send_frame. cbn [fst snd].
+  destruct (is_neg_type t) eqn:T.
+  - right. rewrite stamp_typ. exact T.
+  - left. apply (stamp_ordinary cfg v (Request t p) C). cbn [ordinary]. rewrite T. reflexivity.
+Qed.
+
+Lemma ack_carries : forall cfg v, carries v (stamp cfg v ack_message).
+Proof. intros. left. rewrite ack_stamped. reflexivity. Qed.
+
+Lemma wr_take_ver : forall cfg s, w_ver (wr_take cfg s) = w_ver s.
+Proof.
+  intros. unfold wr_take. destruct (w_busy s); [reflexivity|].
+  destruct (w_ackq s); [|reflexivity]. destruct (w_sendq s); reflexivity.
+Qed.
+
+Lemma wr_take_wire : forall cfg s, w_wire (wr_take cfg s) = w_wire s.
+Proof.
+  intros. unfold wr_take. destruct (w_busy s); [reflexivity|].
+  destruct (w_ackq s); [|reflexivity]. destruct (w_sendq s); reflexivity.
+Qed.
+
+Lemma wr_take_busy : forall cfg s f, conforming cfg = true ->
+  (forall g, w_busy s = Some g -> carries (w_ver s) g) ->
+  w_busy (wr_take cfg s) = Some f -> carries (w_ver s) f.
+Proof.
+  intros cfg s f C B. unfold wr_take. destruct (w_busy s) eqn:E.
+  - intro H. apply B. rewrite E in H. exact H.
+  - destruct (w_ackq s).
+    + destruct (w_sendq s); cbn [w_busy].
+      * rewrite E. discriminate.
+      * intro H. injection H as <-. apply send_frame_carries. exact C.
+    + cbn [w_busy]. intro H. injection H as <-. apply ack_carries.
+Qed.
+
+Lemma wr_take_held : forall cfg s f, w_busy s = Some f -> wr_take cfg s = s.
+Proof. intros cfg s f H. unfold wr_take. rewrite H. reflexivity. Qed.
+
+(* once the version has settled (no later assignment changes it) and the frame under way, if any,
+   carries it, every frame the reader reads from then on carries it *)
+Lemma wr_settled : forall cfg evs s, conforming cfg = true ->
+  (forall v, In (WAssign v) evs -> v = w_ver s) ->
+  (forall g, w_busy s = Some g -> carries (w_ver s) g) ->
+  exists rest, w_wire (wr_run cfg evs s) = w_wire s ++ rest /\ Forall (carries (w_ver s)) rest /\
+               w_ver (wr_run cfg evs s) = w_ver s.
+Proof.
+  intros cfg evs. induction evs as [|e evs IH]; intros s C A B.
+  - exists []. rewrite app_nil_r. repeat split. constructor.
+  - unfold wr_run in *. cbn [fold_left].
+    assert (A' : forall v, In (WAssign v) evs -> v = w_ver s) by (intros v H; apply A; right; exact H).
+    destruct e as [|t p|v|].
+    + (* keep-alive *)
+      set (s1 := mkWr (w_ver s) (w_busy s) (S (w_ackq s)) (w_sendq s) (w_wire s)).
+      destruct (IH (wr_step cfg s WKeepAlive) C) as [rest [W [F V]]].
+      * unfold wr_step. rewrite wr_take_ver. exact A'.
+      * unfold wr_step. rewrite wr_take_ver. cbn [w_ver]. intros g. apply (wr_take_busy cfg s1 g C). exact B.
+      * unfold wr_step in *. rewrite wr_take_ver, wr_take_wire in *. cbn [w_ver w_wire] in *.
+        exists rest. repeat split; assumption.
+    + set (s1 := mkWr (w_ver s) (w_busy s) (w_ackq s) (w_sendq s ++ [(t, p)]) (w_wire s)).
+      destruct (IH (wr_step cfg s (WSubmit t p)) C) as [rest [W [F V]]].
+      * unfold wr_step. rewrite wr_take_ver. exact A'.
+      * unfold wr_step. rewrite wr_take_ver. cbn [w_ver]. intros g. apply (wr_take_busy cfg s1 g C). exact B.
+      * unfold wr_step in *. rewrite wr_take_ver, wr_take_wire in *. cbn [w_ver w_wire] in *.
+        exists rest. repeat split; assumption.
+    + assert (v = w_ver s) by (apply A; left; reflexivity). subst v.
+      set (s1 := mkWr (w_ver s) (w_busy s) (w_ackq s) (w_sendq s) (w_wire s)).
+      destruct (IH (wr_step cfg s (WAssign (w_ver s))) C) as [rest [W [F V]]].
+      * unfold wr_step. rewrite wr_take_ver. exact A'.
+      * unfold wr_step. rewrite wr_take_ver. cbn [w_ver]. intros g. apply (wr_take_busy cfg s1 g C). exact B.
+      * unfold wr_step in *. rewrite wr_take_ver, wr_take_wire in *. cbn [w_ver w_wire] in *.
+        exists rest. repeat split; assumption.
+    + destruct (w_busy s) as [f|] eqn:E.
+      * set (s1 := mkWr (w_ver s) None (w_ackq s) (w_sendq s) (w_wire s ++ [f])).
+        destruct (IH (wr_step cfg s WPeerReads) C) as [rest [W [F V]]].
+        -- unfold wr_step. rewrite wr_take_ver, E. exact A'.
+        -- unfold wr_step. rewrite wr_take_ver, E. cbn [w_ver]. intros g. apply (wr_take_busy cfg s1 g C).
+           cbn [w_busy]. discriminate.
+        -- unfold wr_step in *. rewrite E in *. rewrite wr_take_ver, wr_take_wire in *. cbn [w_ver w_wire] in *.
+           exists (f :: rest). rewrite W, <- app_assoc. repeat split; try assumption.
+           constructor; [apply B; reflexivity|assumption].
+      * destruct (IH (wr_step cfg s WPeerReads) C) as [rest [W [F V]]].
+        -- unfold wr_step. rewrite wr_take_ver, E. exact A'.
+        -- unfold wr_step. rewrite wr_take_ver, E. intros g. apply (wr_take_busy cfg s g C).
+           intros g0 H0. rewrite E in H0. discriminate.
+        -- unfold wr_step in *. rewrite E in *. rewrite wr_take_ver, wr_take_wire in *.
+           exists rest. repeat split; assumption.
+Qed.
+
+Lemma wr_step_reads : forall cfg s f, w_busy s = Some f ->
+  wr_step cfg s WPeerReads = wr_take cfg (mkWr (w_ver s) None (w_ackq s) (w_sendq s) (w_wire s ++ [f])).
+Proof. intros cfg s f B. unfold wr_step. rewrite B. reflexivity. Qed.
+
+(* … and if a write was under way when the version settled, THAT frame (stamped when its write
+   began) is the only one that may carry another version: whatever happens next, the reader reads
+   nothing, or that frame followed by frames that all carry the settled version *)
+Lemma wr_only_write_under_way_older : forall cfg evs s f, conforming cfg = true ->
+  (forall v, In (WAssign v) evs -> v = w_ver s) -> w_busy s = Some f ->
+  exists rest, w_wire (wr_run cfg evs s) = w_wire s ++ rest /\
+               (rest = [] \/ exists rest', rest = f :: rest' /\ Forall (carries (w_ver s)) rest').
+Proof.
+  intros cfg evs. induction evs as [|e evs IH]; intros s f C A B.
+  - exists []. rewrite app_nil_r. split; [reflexivity|left; reflexivity].
+  - unfold wr_run in *. cbn [fold_left].
+    assert (A' : forall v, In (WAssign v) evs -> v = w_ver s) by (intros v H; apply A; right; exact H).
+    destruct e as [|t p|v|].
+    + unfold wr_step. rewrite (wr_take_held cfg _ f) by exact B.
+      destruct (IH (mkWr (w_ver s) (w_busy s) (S (w_ackq s)) (w_sendq s) (w_wire s)) f C A' B) as [rest [W R]].
+      exists rest. split; assumption.
+    + unfold wr_step. rewrite (wr_take_held cfg _ f) by exact B.
+      destruct (IH (mkWr (w_ver s) (w_busy s) (w_ackq s) (w_sendq s ++ [(t, p)]) (w_wire s)) f C A' B) as [rest [W R]].
+      exists rest. split; assumption.
+    + assert (v = w_ver s) by (apply A; left; reflexivity). subst v.
+      unfold wr_step. rewrite (wr_take_held cfg _ f) by exact B.
+      destruct (IH (mkWr (w_ver s) (w_busy s) (w_ackq s) (w_sendq s) (w_wire s)) f C A' B) as [rest [W R]].
+      exists rest. split; assumption.
+    + rewrite (wr_step_reads cfg s f B).
+      set (s1 := mkWr (w_ver s) None (w_ackq s) (w_sendq s) (w_wire s ++ [f])).
+      destruct (wr_settled cfg evs (wr_take cfg s1) C) as [rest [W [F _]]].
+      * rewrite wr_take_ver. exact A'.
+      * rewrite wr_take_ver. intro g. apply (wr_take_busy cfg s1 g C). cbn [w_busy]. discriminate.
+      * unfold wr_run in W. rewrite wr_take_wire, wr_take_ver in *. subst s1. cbn [w_wire w_ver] in *.
+        exists (f :: rest). rewrite W, <- app_assoc. split; [reflexivity|].
+        right. exists rest. split; [reflexivity|assumption].
+Qed.
+
+(* -- the closed forms of Negotiate.v are what this write loop does -- *)
+Lemma wr_run_app : forall cfg a b s, wr_run cfg (a ++ b) s = wr_run cfg b (wr_run cfg a s).
+Proof. intros. unfold wr_run. apply fold_left_app. Qed.
+
+Lemma wr_run_cons : forall cfg e evs s, wr_run cfg (e :: evs) s = wr_run cfg evs (wr_step cfg s e).
+Proof. reflexivity. Qed.
+
+Lemma step_ka_busy : forall cfg v f n q w,
+  wr_step cfg (mkWr v (Some f) n q w) WKeepAlive = mkWr v (Some f) (S n) q w.
+Proof. reflexivity. Qed.
+Lemma step_ka_idle : forall cfg v w,
+  wr_step cfg (wr_idle v w) WKeepAlive = mkWr v (Some (stamp cfg v ack_message)) 0 [] w.
+Proof. reflexivity. Qed.
+Lemma step_assign_busy : forall cfg v v' f n q w,
+  wr_step cfg (mkWr v (Some f) n q w) (WAssign v') = mkWr v' (Some f) n q w.
+Proof. reflexivity. Qed.
+Lemma step_assign_idle : forall cfg v v' w, wr_step cfg (wr_idle v w) (WAssign v') = wr_idle v' w.
+Proof. reflexivity. Qed.
+Lemma step_submit_busy : forall cfg v f n q w t p,
+  wr_step cfg (mkWr v (Some f) n q w) (WSubmit t p) = mkWr v (Some f) n (q ++ [(t, p)]) w.
+Proof. reflexivity. Qed.
+Lemma step_submit_idle : forall cfg v w t p,
+  wr_step cfg (wr_idle v w) (WSubmit t p) = mkWr v (Some (stamp cfg v (new_message cfg t p))) 0 [] w.
+Proof. reflexivity. Qed.
+Lemma step_read_acks : forall cfg v f n q w,
+  wr_step cfg (mkWr v (Some f) (S n) q w) WPeerReads = mkWr v (Some (stamp cfg v ack_message)) n q (w ++ [f]).
+Proof. reflexivity. Qed.
+Lemma step_read_send : forall cfg v f tp q w,
+  wr_step cfg (mkWr v (Some f) 0 (tp :: q) w) WPeerReads = mkWr v (Some (send_frame cfg v tp)) 0 q (w ++ [f]).
+Proof. reflexivity. Qed.
+Lemma step_read_last : forall cfg v f w,
+  wr_step cfg (mkWr v (Some f) 0 [] w) WPeerReads = wr_idle v (w ++ [f]).
+Proof. reflexivity. Qed.
+
+Lemma ka_while_busy : forall cfg k v f n q w,
+  wr_run cfg (repeat WKeepAlive k) (mkWr v (Some f) n q w) = mkWr v (Some f) (k + n) q w.
+Proof.
+  intros cfg k. induction k as [|k IH]; intros; [reflexivity|].
+  cbn [repeat]. rewrite wr_run_cons, step_ka_busy, IH. f_equal. apply Nat.add_succ_r.
+Qed.
+
+(* the reader reads everything the loop has: the frame under way, n acknowledgements, then the
+   messages waiting on the send queue — all but the first stamped with the version of now *)
+Lemma reads_drain : forall cfg v n f q w,
+  wr_run cfg (repeat WPeerReads (S n + length q)) (mkWr v (Some f) n q w)
+  = wr_idle v (w ++ f :: acks cfg v n ++ map (send_frame cfg v) q).
+Proof.
+  intros cfg v n. induction n as [|n IH].
+  - intros f q. revert f. induction q as [|tp q IHq]; intros f w.
+    + cbn [length Nat.add repeat]. rewrite wr_run_cons, step_read_last. reflexivity.
+    + cbn [length]. rewrite <- plus_n_Sm. cbn [repeat]. rewrite wr_run_cons, step_read_send.
+      rewrite IHq. unfold wr_idle. f_equal. rewrite <- app_assoc. reflexivity.
+  - intros f q w. change (S (S n) + length q)%nat with (S (S n + length q)). cbn [repeat].
+    rewrite wr_run_cons, step_read_acks, IH. unfold wr_idle. f_equal. rewrite <- app_assoc. reflexivity.
+Qed.
+
+Lemma ka_acked_run : forall cfg k v w,
+  wr_run cfg (ka_acked k) (wr_idle v w) = wr_idle v (w ++ acks cfg v k).
+Proof.
+  intros cfg k. induction k as [|k IH]; intros v w.
+  - cbn. unfold wr_idle. rewrite app_nil_r. reflexivity.
+  - unfold ka_acked in *. cbn [repeat concat app]. rewrite !wr_run_cons, step_ka_idle, step_read_last, IH.
+    unfold wr_idle. f_equal. rewrite <- app_assoc. reflexivity.
+Qed.
+
+(* d keep-alives to an idle loop while the reader does not read: the first acknowledgement is
+   stamped now and its write blocks, d-1 IDs wait *)
+Lemma ka_unread : forall cfg d v w,
+  wr_run cfg (repeat WKeepAlive (S d)) (wr_idle v w) = mkWr v (Some (stamp cfg v ack_message)) d [] w.
+Proof.
+  intros. cbn [repeat]. rewrite wr_run_cons, step_ka_idle, ka_while_busy, Nat.add_0_r. reflexivity.
+Qed.
+
+Lemma held_is_writer_run : forall cfg v_then v_now d w,
+  wr_run cfg (repeat WKeepAlive d ++ WAssign v_now :: repeat WPeerReads d) (wr_idle v_then w)
+  = wr_idle v_now (w ++ held cfg v_then v_now d).
+Proof.
+  intros. destruct d as [|d].
+  - cbn. unfold wr_idle. rewrite app_nil_r. reflexivity.
+  - rewrite wr_run_app, ka_unread, wr_run_cons, step_assign_busy.
+    replace (S d) with (S d + length (@nil (N * list N)))%nat at 1 by apply Nat.add_0_r.
+    rewrite reads_drain. cbn [map held]. rewrite app_nil_r. reflexivity.
+Qed.
+
+(* the same with SET_PROTOCOL_VERSION handed over while the reader still does not read: it is
+   written after the held acknowledgements (the loop prefers ackQueue) *)
+Lemma held_then_request : forall cfg v_then v_now d t p w,
+  wr_run cfg (repeat WKeepAlive d ++ WAssign v_now :: WSubmit t p :: repeat WPeerReads (S d)) (wr_idle v_then w)
+  = wr_idle v_now (w ++ held cfg v_then v_now d ++ [stamp cfg v_now (new_message cfg t p)]).
+Proof.
+  intros. destruct d as [|d].
+  - reflexivity.
+  - rewrite wr_run_app, ka_unread, !wr_run_cons, step_assign_busy, step_submit_busy. cbn [app].
+    replace (S (S d)) with (S d + length [(t, p)])%nat by (cbn [length]; rewrite Nat.add_1_r; reflexivity).
+    rewrite reads_drain. cbn [map held app]. reflexivity.
+Qed.
+
+Lemma ka_never_read : forall cfg d s, w_wire (wr_run cfg (repeat WKeepAlive d) s) = w_wire s /\
+                                      w_ver (wr_run cfg (repeat WKeepAlive d) s) = w_ver s.
+Proof.
+  intros cfg d. induction d as [|d IH]; intro s; [split; reflexivity|].
+  cbn [repeat]. rewrite wr_run_cons. destruct (IH (wr_step cfg s WKeepAlive)) as [W V].
+  rewrite W, V. unfold wr_step. rewrite wr_take_wire, wr_take_ver. split; reflexivity.
+Qed.
+
+Lemma held_same_version : forall cfg v d w,
+  wr_run cfg (repeat WKeepAlive d ++ repeat WPeerReads d) (wr_idle v w) = wr_idle v (w ++ held cfg v v d).
+Proof.
+  intros. destruct d as [|d].
+  - cbn. unfold wr_idle. rewrite app_nil_r. reflexivity.
+  - rewrite wr_run_app, ka_unread.
+    replace (S d) with (S d + length (@nil (N * list N)))%nat at 1 by apply Nat.add_0_r.
+    rewrite reads_drain. cbn [map held]. rewrite app_nil_r. reflexivity.
+Qed.
+
+(* negotiate_kd's frames — those of the negotiation and those left over from it, in this order —
+   are what the write loop puts on the wire on the schedule of such a negotiation, and the loop's
+   version at the end is the version settled on: every client maximum, every pair of reactions,
+   any numbers of keep-alives acknowledged at once / held back at either point *)
+Lemma negotiate_kd_is_writer_run_l : forall cfg cmax k1 d1 k2 d2 r1 r2,
+  let s := wr_run cfg (kd_schedule cmax k1 d1 k2 d2 r1 r2) (wr_idle cmax []) in
+  let m := negotiate_kd cfg cmax k1 d1 k2 d2 r1 r2 in
+  w_wire s = n_frames (fst m) ++ snd m /\ w_ver s = n_version (fst m).
+Proof.
+  intros cfg cmax k1 d1 k2 d2 r1 r2. cbv zeta. unfold kd_schedule, negotiate_kd.
+  destruct (cmax <=? V1_0_1); [split; reflexivity|].
+  cbn [app]. rewrite !wr_run_cons, step_submit_idle, step_read_last, wr_run_app, ka_acked_run.
+  cbn [app]. set (f1 := stamp cfg cmax (new_message cfg MsgGetSupportedVersion [])).
+  destruct (get_supported r1) as [[cur mx]|].
+  - set (v := if mx <? cmax then mx else cmax). destruct (cur =? v).
+    + rewrite held_is_writer_run. cbn [fst snd n_frames n_version w_wire w_ver wr_idle].
+      split; reflexivity.
+    + replace (repeat WKeepAlive d1 ++ WAssign v :: WSubmit MsgSetProtocolVersion [v]
+                 :: repeat WPeerReads (S d1) ++ ka_acked k2 ++ repeat WKeepAlive d2
+                    ++ (if set_accepted r2 then repeat WPeerReads d2 else []))
+        with ((repeat WKeepAlive d1 ++ WAssign v :: WSubmit MsgSetProtocolVersion [v] :: repeat WPeerReads (S d1))
+                ++ ka_acked k2 ++ repeat WKeepAlive d2 ++ (if set_accepted r2 then repeat WPeerReads d2 else []))
+        by (rewrite <- app_assoc; reflexivity).
+      rewrite wr_run_app, held_then_request, wr_run_app, ka_acked_run.
+      destruct (set_accepted r2).
+      * rewrite held_same_version. cbn [fst snd n_frames n_version w_wire w_ver wr_idle].
+        split; [|reflexivity]. repeat (rewrite <- app_assoc || rewrite <- app_comm_cons). cbn [app]. reflexivity.
+      * rewrite app_nil_r. destruct (ka_never_read cfg d2 (wr_idle v (((f1 :: acks cfg cmax k1) ++
+                 held cfg cmax v d1 ++ [stamp cfg v (new_message cfg MsgSetProtocolVersion [v])]) ++ acks cfg v k2))) as [W V].
+        rewrite W, V. cbn [fst snd n_frames n_version w_wire w_ver wr_idle].
+        split; [|reflexivity]. rewrite app_nil_r. repeat (rewrite <- app_assoc || rewrite <- app_comm_cons). cbn [app]. reflexivity.
+  - rewrite app_nil_r. destruct (ka_never_read cfg d1 (wr_idle cmax (f1 :: acks cfg cmax k1))) as [W V].
+    rewrite W, V. cbn [fst snd n_frames n_version w_wire w_ver wr_idle]. rewrite app_nil_r. split; reflexivity.
+Qed.
+
+(* -- consequences for the closed form -- *)
+Lemma kd_no_delay : forall cfg cmax k1 k2 r1 r2,
+  negotiate_kd cfg cmax k1 0 k2 0 r1 r2 = (negotiate_ka cfg cmax k1 k2 r1 r2, []).
+Proof.
+  intros. unfold negotiate_kd, negotiate_ka. destruct (cmax <=? V1_0_1); [reflexivity|].
+  destruct (get_supported r1) as [[cur mx]|]; [|reflexivity].
+  destruct (cur =? _); [reflexivity|]. cbn [held app]. destruct (set_accepted r2); reflexivity.
+Qed.
+
+Lemma session_kd_no_delay : forall cfg cmax k1 k2 r1 r2 evs,
+  session_kd cfg cmax k1 0 k2 0 r1 r2 evs = session_post cfg cmax k1 k2 r1 r2 evs.
+Proof. intros. unfold session_kd, session_post. rewrite kd_no_delay. reflexivity. Qed.
+
+Lemma neg_only_held : forall cfg a b d, neg_frames_only (held cfg a b d) = [].
+Proof.
+  intros. destruct d as [|d]; [reflexivity|]. cbn [held]. unfold neg_frames_only. cbn [filter].
+  rewrite stamp_typ. cbn [ack_message m_typ is_neg_type]. apply (neg_only_acks cfg b d).
+Qed.
+
+Lemma neg_only_app : forall a b, neg_frames_only (a ++ b) = neg_frames_only a ++ neg_frames_only b.
+Proof. intros. apply filter_app. Qed.
+
+(* held-back acknowledgements change neither the outcome, nor the version, nor the negotiation messages *)
+Lemma kd_same_result : forall cfg cmax k1 d1 k2 d2 r1 r2,
+  let a := fst (negotiate_kd cfg cmax k1 d1 k2 d2 r1 r2) in
+  let b := negotiate cfg cmax r1 r2 in
+  n_outcome a = n_outcome b /\ n_version a = n_version b /\ neg_frames_only (n_frames a) = n_frames b.
+Proof.
+  intros cfg cmax k1 d1 k2 d2 r1 r2. cbv zeta. unfold negotiate_kd, negotiate.
+  destruct (cmax <=? V1_0_1); [repeat split|].
+  destruct (get_supported r1) as [[cur mx]|].
+  - destruct (cur =? _).
+    + cbn [fst n_outcome n_version n_frames]. repeat split.
+      rewrite neg_only_stamped_neg by reflexivity. rewrite neg_only_acks. reflexivity.
+    + destruct (set_accepted r2); cbn [fst n_outcome n_version n_frames]; repeat split;
+        rewrite neg_only_stamped_neg by reflexivity;
+        rewrite !neg_only_app, neg_only_acks, neg_only_held; cbn [app];
+        rewrite neg_only_stamped_neg by reflexivity; rewrite neg_only_acks; reflexivity.
+  - cbn [fst n_outcome n_version n_frames]. repeat split.
+    rewrite neg_only_stamped_neg by reflexivity. rewrite neg_only_acks. reflexivity.
+Qed.
+
+Lemma acks_all : forall cfg v k, Forall (fun f => f = mkMsg v MsgKeepAliveAck []) (acks cfg v k).
+Proof. intros. unfold acks. rewrite ack_stamped. induction k; constructor; [reflexivity|assumption]. Qed.
+
+(* what is left over from negotiation: nothing, or one acknowledgement stamped before the last
+   answer took effect (the configured maximum if it was held at the query, the settled version if
+   at the switch) followed by acknowledgements that all carry the settled version — every cfg *)
+Lemma kd_left_over : forall cfg cmax k1 d1 k2 d2 r1 r2,
+  let m := negotiate_kd cfg cmax k1 d1 k2 d2 r1 r2 in
+  snd m = [] \/
+  exists w rest, snd m = mkMsg w MsgKeepAliveAck [] :: rest /\ ((w = cmax /\ d1 <> O) \/ w = n_version (fst m)) /\
+                 Forall (fun f => f = mkMsg (n_version (fst m)) MsgKeepAliveAck []) rest.
+Proof.
+  intros cfg cmax k1 d1 k2 d2 r1 r2. cbv zeta. unfold negotiate_kd.
+  destruct (cmax <=? V1_0_1); [left; reflexivity|].
+  destruct (get_supported r1) as [[cur mx]|]; [|left; reflexivity].
+  set (v := if mx <? cmax then mx else cmax).
+  destruct (cur =? v).
+  - cbn [fst snd n_version]. destruct d1 as [|d1]; [left; reflexivity|]. right.
+    exists cmax, (acks cfg v d1). cbn [held]. rewrite ack_stamped.
+    split; [reflexivity|]. split; [left; split; [reflexivity|discriminate]|apply acks_all].
+  - destruct (set_accepted r2); [|left; reflexivity].
+    cbn [fst snd n_version]. destruct d2 as [|d2]; [left; reflexivity|]. right.
+    exists v, (acks cfg v d2). cbn [held]. rewrite ack_stamped.
+    split; [reflexivity|]. split; [right; reflexivity|apply acks_all].
+Qed.
+
+Lemma post_out_appends : forall cfg evs s, conforming cfg = true ->
+  exists more, p_out (fold_left (post_step cfg) evs s) = p_out s ++ more /\ Forall (carries (p_ver s)) more.
+Proof.
+  intros cfg evs. induction evs as [|e evs IH]; intros s C.
+  - exists []. rewrite app_nil_r. split; [reflexivity|constructor].
+  - cbn [fold_left]. destruct (IH (post_step cfg s e) C) as [more [E F]].
+    destruct e as [t p| |]; cbn [post_step p_out p_ver] in *.
+    + exists (stamp cfg (p_ver s) (new_message cfg t p) :: more). rewrite E, <- app_assoc. split; [reflexivity|].
+      constructor; [|assumption]. apply (send_frame_carries cfg (p_ver s) (t, p) C).
+    + exists more. split; assumption.
+    + exists (stamp cfg (p_ver s) ack_message :: more). rewrite E, <- app_assoc. split; [reflexivity|].
+      constructor; [apply ack_carries|assumption].
+Qed.
+
+(* "every message sent afterwards carries the negotiated version", a reader that stops reading for
+   a while included: the version is the negotiated one at the end; the frames read after
+   negotiation are what was left over from it followed by traffic that all carries the negotiated
+   version *)
+Lemma session_kd_traffic : forall cfg cmax k1 d1 k2 d2 r1 r2 evs, conforming cfg = true ->
+  let s := session_kd cfg cmax k1 d1 k2 d2 r1 r2 evs in
+  p_ver (snd s) = n_version (fst s) /\
+  (n_outcome (fst s) = Proceeds ->
+   exists traffic, p_out (snd s) = snd (negotiate_kd cfg cmax k1 d1 k2 d2 r1 r2) ++ traffic /\
+                   Forall (carries (n_version (fst s))) traffic).
+Proof.
+  intros cfg cmax k1 d1 k2 d2 r1 r2 evs C. unfold session_kd. cbn [fst snd].
+  destruct (n_outcome _).
+  - split; [apply post_version_invariant|]. intros _.
+    destruct (post_out_appends cfg evs (mkPost (n_version (fst (negotiate_kd cfg cmax k1 d1 k2 d2 r1 r2)))
+                 (snd (negotiate_kd cfg cmax k1 d1 k2 d2 r1 r2))) C) as [more [E F]].
+    exists more. split; assumption.
+  - split; [reflexivity|discriminate].
+Qed.
+
+(* so: after negotiation every frame carries the negotiated version, except — at most — the FIRST
+   one, and only if that is an acknowledgement whose write was under way when negotiation ended *)
+Lemma session_kd_negotiated : forall cfg cmax k1 d1 k2 d2 r1 r2 evs, conforming cfg = true ->
+  let s := session_kd cfg cmax k1 d1 k2 d2 r1 r2 evs in
+  let v := n_version (fst s) in
+  Forall (carries v) (tl (p_out (snd s))) /\
+  (forall f, hd_error (p_out (snd s)) = Some f ->
+             carries v f \/ (f = mkMsg cmax MsgKeepAliveAck [] /\ d1 <> O)) /\
+  (d1 = O -> Forall (carries v) (p_out (snd s))).
+Proof.
+  intros cfg cmax k1 d1 k2 d2 r1 r2 evs C. cbv zeta.
+  destruct (session_kd_traffic cfg cmax k1 d1 k2 d2 r1 r2 evs C) as [_ T].
+  assert (Hacks : forall v l, Forall (fun f => f = mkMsg v MsgKeepAliveAck []) l -> Forall (carries v) l).
+  { intros v l H. eapply Forall_impl; [|exact H]. intros f ->. left. reflexivity. }
+  destruct (n_outcome (fst (session_kd cfg cmax k1 d1 k2 d2 r1 r2 evs))) eqn:O.
+  - destruct (T eq_refl) as [traffic [E F]]. rewrite E.
+    assert (R : fst (session_kd cfg cmax k1 d1 k2 d2 r1 r2 evs) = fst (negotiate_kd cfg cmax k1 d1 k2 d2 r1 r2)) by reflexivity.
+    rewrite R in *.
+    pose proof (kd_left_over cfg cmax k1 d1 k2 d2 r1 r2) as L. cbv zeta in L.
+    destruct L as [L|[w [rest [L [W Fr]]]]]; rewrite L.
+    + cbn [app]. split; [|split].
+      * destruct traffic; [constructor|]. cbn [tl]. inversion F; assumption.
+      * intros f H. left. destruct traffic; [discriminate|]. cbn in H. injection H as <-. inversion F; assumption.
+      * intros _. exact F.
+    + cbn [app tl hd_error]. split; [|split].
+      * apply Forall_app. split; [apply Hacks; exact Fr|exact F].
+      * intros f H. injection H as <-. destruct W as [[-> D]| ->]; [|left; left; reflexivity].
+        right. split; [reflexivity|exact D].
+      * intros D. constructor; [|apply Forall_app; split; [apply Hacks; exact Fr|exact F]].
+        destruct W as [[_ D']| ->]; [contradiction|]. left. reflexivity.
+  - unfold session_kd. cbn [snd]. unfold session_kd in O. cbn [fst] in O. rewrite O. cbn [p_out tl hd_error].
+    split; [constructor|]. split; [discriminate|]. intros _. constructor.
 Qed.
